@@ -415,6 +415,32 @@ pub mod harness {
     #[vp_proof]
     pub fn op_ashr() { shift(Op::ArithShiftR) }
 
+    // ---- power with a negative exponent (§11.4.3, Table 11-4): no repeated multiplication involved -----------
+    // x ** y, y < 0:  x == 0 -> all x;  x == 1 -> 1;  x == -1 (signed) -> y odd ? -1 : 1;  otherwise 0;  x/z base -> all x
+    #[vp_proof]
+    pub fn op_pow_negative_exponent() {
+        let x = any_v64_sized();
+        let y = any_v64_sized();
+        let w: usize = kani::any();
+        let signed: bool = kani::any();
+        kani::assume(w >= 1 && w <= 64 && w >= x.width as usize);
+        kani::assume(!signed || x.signed);
+        kani::assume(y.signed && (y.payload >> (y.width - 1)) & 1 == 1 && (y.mask_xz >> (y.width - 1)) & 1 == 0);
+        let r = bin(Op::Pow, &x, &y, w, signed);
+        let (xp, xm) = ext(&x, w, signed);
+        let full = rmask(w);
+        assert!(r.width as usize == w);
+        if xm != 0 || xp == 0 {
+            assert!(all_x(&r, w));
+        } else if xp == 1 {
+            assert!(r.mask_xz == 0 && r.payload == 1);
+        } else if signed && xp == full {
+            assert!(r.mask_xz == 0 && r.payload == if y.payload & 1 == 1 { full } else { 1 });
+        } else {
+            assert!(r.mask_xz == 0 && r.payload == 0);
+        }
+    }
+
     // ---- unary ------------------------------------------------------------------------------------------------
     fn ctx_unary() -> (ValueU64, usize, bool) {
         let x = any_v64();
